@@ -659,9 +659,48 @@ func (h *harness) runAll(cases []caseSpec, par int) []caseResult {
 	return res
 }
 
+// findings remembers the confirmed violating mutation sets, smallest first, so
+// that larger combinations containing one are attributed to it.
+type findings struct {
+	sets []map[string]bool
+	keys []string
+}
+
+func (f *findings) add(ms []mutation, key string) {
+	set := map[string]bool{}
+	for _, m := range ms {
+		set[m.String()] = true
+	}
+	f.sets = append(f.sets, set)
+	f.keys = append(f.keys, key)
+}
+
+func (f *findings) explains(ms []mutation) (key string, ok bool) {
+	have := map[string]bool{}
+	for _, m := range ms {
+		have[m.String()] = true
+	}
+	for i, set := range f.sets {
+		if len(set) >= len(ms) {
+			continue
+		}
+		all := true
+		for k := range set {
+			if !have[k] {
+				all = false
+				break
+			}
+		}
+		if all {
+			return f.keys[i], true
+		}
+	}
+	return "", false
+}
+
 // account records one decided case in the evidence and returns the confirmed
 // violation class, if any.
-func (h *harness) account(cr caseResult, singles map[string]string) (class string) {
+func (h *harness) account(cr caseResult, found *findings) (class string) {
 	r := h.r
 	c, obs := cr.Spec, cr.Obs
 	ck := caseKey(c.Muts)
@@ -718,17 +757,14 @@ func (h *harness) account(cr caseResult, singles map[string]string) (class strin
 		r.Bucket("violating_cases", 1)
 		r.Bucket("section:"+sec+":violating", 1)
 		r.Eval(ck, true)
-		if len(c.Muts) > 1 {
-			// A combination that contains a single mutation already found
-			// violating is that finding again.
-			for _, m := range c.Muts {
-				if cls, found := singles[m.String()]; found {
-					r.Bucket("combinations_explained_by_single", 1)
-					r.Violation(m.String()+":"+cls, "seen again inside a combination", nil)
-					return obs.Class
-				}
-			}
+		// A combination that contains a smaller combination (or a single
+		// mutation) already found violating is that finding again.
+		if key, ok := found.explains(c.Muts); ok {
+			r.Bucket("combinations_explained_by_smaller_finding", 1)
+			r.Violation(key, "seen again inside a combination", nil)
+			return obs.Class
 		}
+		found.add(c.Muts, ck+":"+obs.Class)
 		r.Violation(ck+":"+obs.Class, obs.What, witness(c, obs, second))
 		return obs.Class
 	}
@@ -769,7 +805,7 @@ func TestCheck(t *testing.T) {
 	defer r.Finish()
 	r.Rule("cases = mutated copies of config.dist.yaml run by the real binary: every single-field mutation of every numeric / duration / size / enum / " +
 		"cross-referenced-id scalar to {0, -1, 1, documented bound, bound+1, large, type maximum (durations), removed, other enum values / ids, bogus}, " +
-		"plus seeded random pairs (and triples in the thorough tier) within one section; class key = the list of (yaml path = value class); " +
+		"plus every value combination of the documented cross-field constraints (cache type/sizes, stop/resume, KV type/TTL, DDR ports) and seeded random pairs (and triples in the thorough tier) within one section, two thirds of their values drawn from those accepted alone; class key = the list of (yaml path = value class); " +
 		"non-trivial = the child reached a decisive observation: rejected with its message examined, or accepted and at least one query answered")
 	r.Assume("a YAML type error that gives the line number of the mutated property counts as naming it")
 	r.Assume("a duration of 1ns / a size of 1B is a legal positive value: a start-up operation that reports hitting that limit, and queries that time out under a 1ns duration, are the configured behaviour, not violations (panics and crashes still are)")
@@ -890,7 +926,7 @@ func TestCheck(t *testing.T) {
 		cr := h.runCase(caseSpec{Stream: "only", Muts: ms})
 		b, _ := json.MarshalIndent(cr.Obs, "", " ")
 		fmt.Printf("=== %s ===\n%s\n=== output ===\n%s\n", caseKey(ms), b, tail(cr.Obs.Output, 6000))
-		h.account(cr, map[string]string{})
+		h.account(cr, &findings{})
 		r.Sample(map[string]interface{}{"only": caseKey(ms), "verdict": cr.Obs.Verdict, "class": cr.Obs.Class})
 		r.Eval("only-second", true)
 		r.Eval("only-third", true)
@@ -908,13 +944,16 @@ func TestCheck(t *testing.T) {
 		singles = singles[:lim]
 	}
 	r.Bucket("cases_single", int64(len(singles)))
-	singleViol := map[string]string{}
+	found := &findings{}
+	acceptedAlone := map[string][]mutValue{} // field path -> values accepted as single mutations
 	results := h.runAll(singles, par)
 	sampled := 0
 	for _, cr := range results {
-		if cls := h.account(cr, singleViol); cls != "" {
-			singleViol[cr.Spec.Muts[0].String()] = cls
+		if cr.Obs.Verdict == "accepted" {
+			m := cr.Spec.Muts[0]
+			acceptedAlone[m.Path.String()] = append(acceptedAlone[m.Path.String()], m.Value)
 		}
+		h.account(cr, found)
 		if (cr.Obs.Verdict == "accepted" || cr.Obs.Verdict == "rejected") && cr.Spec.Idx%97 == 11 && sampled < 3 {
 			sampled++
 			r.Sample(map[string]interface{}{"case": caseKey(cr.Spec.Muts), "verdict": cr.Obs.Verdict, "named_by": cr.Obs.NamedBy,
@@ -955,7 +994,14 @@ func TestCheck(t *testing.T) {
 			var ms []mutation
 			for _, fi := range perm {
 				f := fs[fi]
-				ms = append(ms, mutation{Path: f.Path, Kind: f.Kind, Value: f.Values[rng.IntN(len(f.Values))]})
+				vs := f.Values
+				// Two thirds of the draws use values that were accepted alone, so
+				// that combinations reach the request path instead of stopping at
+				// the first invalid field.
+				if acc := acceptedAlone[f.Path.String()]; len(acc) > 0 && rng.IntN(3) != 0 {
+					vs = acc
+				}
+				ms = append(ms, mutation{Path: f.Path, Kind: f.Kind, Value: vs[rng.IntN(len(vs))]})
 			}
 			combos = append(combos, caseSpec{Stream: stream, Idx: i, Muts: ms})
 		}
@@ -964,11 +1010,11 @@ func TestCheck(t *testing.T) {
 		combos = append(combos, caseSpec{Stream: "constraint", Idx: i, Muts: ms})
 	}
 	r.Bucket("cases_constraint", int64(len(combos)))
-	gen("pair", r.N(150, 2400), 2)
-	gen("triple", r.N(0, 1200), 3)
+	gen("pair", r.N(150, 6000), 2)
+	gen("triple", r.N(0, 3000), 3)
 	r.Bucket("cases_combination", int64(len(combos)))
 	for _, cr := range h.runAll(combos, par) {
-		h.account(cr, singleViol)
+		h.account(cr, found)
 	}
 
 	r.Extra("parallel_children", par)
